@@ -360,7 +360,7 @@ def lp_mirror_problems(model, user, lp=None):
         lin = {r.id: c for r, c in linear_reaction_coefficients(model).items()}
         reaction_style = obj["linear"] and set(obj["coefs"]) <= {
             n for r in model.reactions for n in (r.id, r.reverse_id)
-        }
+        } and all(obj["coefs"].get(r.id, 0.0) == -obj["coefs"].get(r.reverse_id, 0.0) for r in model.reactions)
     except Exception as e:
         out.append(f"objective cannot be read: {e!r}")
         lin, reaction_style = {}, False
@@ -395,7 +395,10 @@ def lp_mirror_problems(model, user, lp=None):
             want[r.id] = _num(c)
             want[r.reverse_id] = _num(-c)
         want = {k: v for k, v in want.items() if v != 0}
-        if want != row[2]:
+        # a user variable may have been put into a metabolite row explicitly (add_lp_feasibility does that)
+        uvars = {n for n, u in (user or {}).items() if u["kind"] == "var"}
+        got_row = {k: v for k, v in row[2].items() if k not in uvars}
+        if want != got_row:
             out.append(f"metabolite {m.id}: row coefficients {row[2]} != stoichiometry {dict(sorted(want.items()))}")
     # everything else must be a user-added object
     for name, u in (user or {}).items():
@@ -403,17 +406,17 @@ def lp_mirror_problems(model, user, lp=None):
             col = cols.pop(name, None)
             if col is None:
                 out.append(f"user variable {name} missing in solver")
-            elif [col[0], col[1]] != [_num(u["lb"]), _num(u["ub"])]:
+            elif diff([col[0], col[1]], [_num(u["lb"]), _num(u["ub"])], rel=1e-12):
                 out.append(f"user variable {name}: bounds {col[:2]} != {[u['lb'], u['ub']]}")
         else:
             row = rows.pop(name, None)
             if row is None:
                 out.append(f"user constraint {name} missing in solver")
             else:
-                if [row[0], row[1]] != [_num(u["lb"]), _num(u["ub"])]:
+                if diff([row[0], row[1]], [_num(u["lb"]), _num(u["ub"])], rel=1e-12):
                     out.append(f"user constraint {name}: bounds {row[:2]} != {[u['lb'], u['ub']]}")
                 wc = {k: _num(v) for k, v in u["coefs"].items() if v != 0}
-                if u.get("coefs_exact", True) and dict(sorted(wc.items())) != row[2]:
+                if diff(dict(sorted(wc.items())), row[2], rel=1e-12):
                     out.append(f"user constraint {name}: coefficients {row[2]} != {wc}")
     for name in cols:
         out.append(f"solver has column '{name}' that is neither a reaction variable nor user-added")
